@@ -1926,3 +1926,6 @@ m("C10", "wrapper-swallows-context", ZT,
   '''                msgid: str | bytes,
                 context: Any = None,
                 txl: TranslationFunction = translate,  # type: ignore''')
+m("C12", "bases-not-linearisable", "utils.py",
+  "        bases = (base, ) if issubclass(base, cls) else (cls, base)\n",
+  "        bases = (cls, base)\n")
